@@ -5,10 +5,10 @@
     DicomWrapper is the contract written down in Conv/Geom.v).  [reachable st]: the stack is the result of
     any history of add / query operations; [gfiles_ok gs st]: [gs] lists, for every file of the stack, its
     pixels (rows x cols) and geometry.  All arithmetic is exact (Q). *)
-From Coq Require Import List Bool Arith ZArith NArith QArith Qcanon Lia Permutation.
-From DV Require Import Common.Res Common.Str Stack.Model Stack.Spec Stack.ProofsShape Stack.ProofsInv
+From Coq Require Import List Bool Arith ZArith NArith QArith Qcanon Lia Permutation Sorted.
+From DV Require Import Common.Res Common.Str Stack.Model Stack.Sort Stack.Spec Stack.ProofsShape Stack.ProofsInv
   Orient.Model Orient.Spec Orient.ProofsAff
-  Conv.Geom Conv.GeomSpec Conv.ProofsGeomTop Conv.ExamplesGeom.
+  Conv.Geom Conv.GeomSpec Conv.ProofsGeomAff Conv.ProofsGeomTop Conv.ExamplesGeom.
 Import ListNotations.
 Local Open Scope nat_scope.
 
@@ -54,17 +54,60 @@ Theorem C02_geometry : forall gs st code embed st' go,
       veq3 (world (go_aff go) idx') (ras (pixel_pos g i j)).
 Proof. exact geometry_reachable. Qed.
 
-(** (b') [on_line] follows, for a stack that is sorted by this very call (a file was added since the last
-    query), from a condition on the SOURCES: shared orientation / spacing, every file displaced from a common
-    origin proportionally to its slice position, and the distinct slice positions in exact arithmetic
-    progression (the code checks the last only to 4 %). *)
+(** (b') [on_line] follows, for EVERY reachable stack (freshly sorted by this call or with a cached shape), from a
+    condition on the SOURCES: the sorter's slice position of every file is the geometric slice indicator
+    ipp . normal ([positions_ok]), the files share orientation / spacing and are displaced from a common origin
+    proportionally to their slice indicator, and the distinct slice positions are in exact arithmetic
+    progression (the code checks the last only to 4 %: see C02_geometry_irregular). *)
 Theorem C02_geometry_sources : forall gs st code embed st' go,
-  reachable st -> shape_dirty st = true -> gfiles_ok gs st -> sources_regular gs st ->
+  reachable st -> gfiles_ok gs st -> positions_ok gs st -> sources_regular gs st ->
   conv_geom gs st code embed = (st', Ok go) ->
   forall S T V r c,
     0 < S -> 0 < T -> 0 < V -> o_shape (go_nifti go) = grid_shape r c S T V ->
     on_line gs (go_ord0 go) S.
 Proof. exact geometry_sources_reachable. Qed.
+
+(** (b'') Irregular spacing - the stack accepts gaps that differ by up to 4 %.  With P the stack's distinct slice
+    positions in ascending order: the file at slice s of every volume has slice indicator P[s] (the sorted order IS
+    the geometric order), and the affine - whose slice column comes from the first two sorted files only - maps
+    the voxel of pixel (i, j) of that file to its true patient position MINUS the exact error
+        slice_dev P s * d,   slice_dev P s = (P[s] - P[0]) - s (P[1] - P[0]) = sum_{j<s} (gap_j - gap_0),
+    along the common displacement direction d (x, y negated by [sg]).  The error vanishes exactly when the
+    positions are equidistant; it is not zero in general (C02_geometry_irregular_ex). *)
+Theorem C02_geometry_irregular : forall gs st code embed st' go d,
+  reachable st -> gfiles_ok gs st -> positions_ok gs st -> sources_line gs st d ->
+  conv_geom gs st code embed = (st', Ok go) ->
+  forall S T V r c,
+    0 < S -> 0 < T -> 0 < V -> o_shape (go_nifti go) = grid_shape r c S T V ->
+    let P := ssort qc_leb (pos_vals st) in
+    length P = S /\ StronglySorted Qclt P /\
+    (forall s t v g, s < S -> t < T -> v < V ->
+       file_at gs (go_ord0 go) (cell_pos S T s t v) = Some g -> (slice_indicator g == pos_at P s)%Q) /\
+    (forall s t v i j g idx',
+       s < S -> t < T -> v < V ->
+       file_at gs (go_ord0 go) (cell_pos S T s t v) = Some g ->
+       apply_aff (go_T go) idx' = Some (cell_idx (length (grid_shape r c S T V)) i j s t v) ->
+       forall q, q < 3 ->
+         (vget (world (go_aff go) idx') q + sg q * (slice_dev P s * vget d q) == vget (ras (pixel_pos g i j)) q)%Q) /\
+    (forall s, (slice_dev P s == gap_excess P s)%Q).
+Proof. exact geometry_irregular_reachable. Qed.
+
+(** (a') The DICOM rescale inside the model: when [rs g] gives the stored pixels and scale factors of every file
+    ([g_pix] = slope * stored + intercept, in units of 1 / rs_den), the voxel of pixel (i, j) of the file in cell
+    (s, t, v) holds slope * stored + intercept of that file's stored pixel. *)
+Theorem C02_values_rescaled : forall gs st code embed st' go (rs : gfile -> rescale),
+  reachable st -> gfiles_ok gs st ->
+  conv_geom gs st code embed = (st', Ok go) ->
+  (forall g, In g (go_files go) -> rescaled_ok g (rs g) = true) ->
+  exists S T V r c,
+    0 < S /\ 0 < T /\ 0 < V /\ o_shape (go_nifti go) = grid_shape r c S T V /\
+    forall s t v i j, s < S -> t < T -> v < V -> i < r -> j < c ->
+      exists g x z idx',
+        file_at gs (go_ord0 go) (cell_pos S T s t v) = Some g /\ stored_at (rs g) i j = Some x /\
+        in_bounds (ashape (go_data go)) idx' = true /\
+        apply_aff (go_T go) idx' = Some (cell_idx (length (grid_shape r c S T V)) i j s t v) /\
+        aget (go_data go) idx' = Some z /\ (inject_Z z == rescaled_val (rs g) x)%Q.
+Proof. exact values_rescaled_reachable. Qed.
 
 (** (c) Two voxel orders: same unreordered image, same value multiset, same dtype; each affine is the
     unreordered affine times the reported transform; voxels of the two outputs that come from the same
@@ -135,12 +178,34 @@ Example C02_geometry_ex :
   map Qred (ras (pixel_pos (ex_gfile 0 1) 1 0)) = [-1; 0; 1]%Q.
 Proof.
   split; [|split; vm_compute; reflexivity].
-  apply (C02_geometry_sources ex_gs ex_st ex_LAS false _ ex_go ex_reachable ex_dirty ex_gfiles_ok
+  apply (C02_geometry_sources ex_gs ex_st ex_LAS false _ ex_go ex_reachable ex_gfiles_ok ex_positions_ok
            ex_sources_regular ex_conv_geom 3 2 1 2 2); try lia. exact ex_shape.
 Qed.
 
-Example C02_geometry_sources_ex : sources_regular ex_gs ex_st /\ shape_dirty ex_st = true.
-Proof. split; [exact ex_sources_regular | exact ex_dirty]. Qed.
+Example C02_geometry_sources_ex : positions_ok ex_gs ex_st /\ sources_regular ex_gs ex_st.
+Proof. split; [exact ex_positions_ok | exact ex_sources_regular]. Qed.
+
+(** an ACCEPTED series with slices at x = 1, 3, 5.06: the affine puts the third sorted slice (the file at x = 1)
+    at x = 0.94; the error is slice_dev = -0.06 along d = (-1, 0, 0) *)
+Example C02_geometry_irregular_ex :
+  reachable ex_irr_st /\ gfiles_ok ex_irr_gs ex_irr_st /\ positions_ok ex_irr_gs ex_irr_st /\
+  sources_line ex_irr_gs ex_irr_st [-1; 0; 0]%Q /\
+  (exists st', conv_geom ex_irr_gs ex_irr_st [] false = (st', Ok ex_irr_go)) /\
+  map (fun q : Qc => Qred (this q)) (ssort qc_leb (pos_vals ex_irr_st)) = [-253 # 50; -3; -1]%Q /\
+  go_ord0 ex_irr_go = [2; 1; 0] /\
+  map Qred (world (go_aff ex_irr_go) [0; 0; 2]) = [-47 # 50; 0; 0]%Q /\
+  map Qred (ras (pixel_pos (ex_irr_gfile 0) 0 0)) = [-1; 0; 0]%Q /\
+  Qred (slice_dev (ssort qc_leb (pos_vals ex_irr_st)) 2) = (-3 # 50)%Q.
+Proof.
+  split; [exact ex_irr_reachable|]. split; [exact ex_irr_gfiles_ok|]. split; [exact ex_irr_positions_ok|].
+  split; [exact ex_irr_sources_line|]. split; [eexists; exact ex_irr_conv|].
+  repeat split; vm_compute; reflexivity.
+Qed.
+
+Example C02_values_rescaled_ex :
+  (forall g, In g (go_files ex_go) -> rescaled_ok g (ex_rs g) = true) /\
+  rescaled_val (mkrescale [[7]%Z] (1 # 2) 10 2) 7 == 27.
+Proof. split; [exact ex_rescaled | vm_compute; reflexivity]. Qed.
 
 Example C02_invariance_ex :
   exists s1 s2, conv_geom ex_gs ex_st ex_LAS false = (s1, Ok ex_go) /\ conv_geom ex_gs ex_st ex_RAS false = (s2, Ok ex_go2) /\
